@@ -57,3 +57,11 @@ Definition run_case_z (x : list Z * list (list Z)) : list Z :=
 Definition diff_case_z (x : list Z * list (list Z) * list (list Z)) : Z :=
   let '(c, ls, os) := x in
   first_diff (dec_cfg c) (init (dec_cfg c)) (map dec_label ls) os 0.
+
+(* task-level (virtual clock) cases *)
+From DP Require Import Managed.Macro.
+Definition run_case_macro_z (x : list Z * list (list Z)) : list Z :=
+  run_obs_macro (dec_cfg (fst x)) (init (dec_cfg (fst x))) (map dec_label (snd x)).
+Definition diff_case_macro_z (x : list Z * list (list Z) * list (list Z)) : Z :=
+  let '(c, ls, os) := x in
+  first_diff_macro (dec_cfg c) (init (dec_cfg c)) (map dec_label ls) os 0.
